@@ -194,12 +194,14 @@ func (r *replica) execute(si int, atxs []evmutil.ATx, want *[2][]interface{}) bo
 	if hg, ok := pnc.(evmutil.Hang); ok && referenceMode {
 		b, _ := json.Marshal(refOut{Err: "hang:" + hg.Call + " " + hg.String() + fmt.Sprintf(" (1 signature-checking goroutine) on block %v\n", names(atxs)) + hg.Dump})
 		fmt.Println(string(b))
+		evmutil.RemoveAllDirs()
 		os.Exit(0)
 	}
 	if hg, ok := pnc.(evmutil.Hang); ok {
 		r.fail(si, action, "hang", true, "hang:"+hg.Call, fmt.Sprintf("%s (%d signature-checking goroutines; %s) on block %v: this replica is stuck at the height while replicas with more goroutines execute the block\n%s",
 			hg.String(), r.routines, r.who, names(atxs), hg.Dump), nil, nil)
 		r.rep.Emit()
+		evmutil.RemoveAllDirs()
 		os.Exit(0) // the stuck goroutines cannot be reclaimed
 	}
 	if pnc != nil || err != nil {
@@ -258,6 +260,7 @@ func (r *replica) commit(si int) bool {
 		if !referenceMode {
 			r.rep.Emit()
 		}
+		evmutil.RemoveAllDirs()
 		os.Exit(0)
 	}
 	if pnc != nil || err != nil {
@@ -633,6 +636,7 @@ func spawnReference(r *replica, tr mbt.Trace) error {
 	if strings.HasPrefix(out.Err, "hang:") {
 		r.fail(-1, "Execute(isolated reference)", "hang", true, "hang:OnExecute", "the isolated reference replica of "+tr.ID+" is stuck: "+strings.TrimPrefix(out.Err, "hang:"), nil, nil)
 		r.rep.Emit()
+		evmutil.RemoveAllDirs()
 		os.Exit(0)
 	}
 	if out.Err != "" {
